@@ -7,12 +7,22 @@ TypeError for a non-dataframe argument.  Anything else is a leak.
 
 Part B (fault enumeration): schemas dense in user callbacks (check fn -
 vectorised / element-wise / groupby / frame / row-wise, groupby fn, parser fn,
-custom DataType.check / coerce).  A counting run gives N invocations; for
-every k in 1..N (all when N <= 64) the case is rebuilt and re-run with an
-InjectedFault raised at the k-th invocation.  Oracle: a raising *check* is
-reported as a failed check (CHECK_ERROR inside SchemaError/SchemaErrors); for
-other callbacks the injected object itself may propagate; schema fingerprint,
-config and the caller's data afterwards == before.
+custom DataType.check / coerce / coerce_value).  A counting run gives N
+invocations; for every k in 1..N (all when N <= 64) the case is rebuilt and
+re-run with an InjectedFault raised at the k-th invocation.  Oracle: a raising
+*check* is reported as a failed check (CHECK_ERROR inside SchemaError/
+SchemaErrors); a raising *coerce_value* (only called after coerce() failed, to
+find the failure cases) is reported as a coercion error; for other callbacks
+the injected object itself may propagate; schema fingerprint, config and the
+caller's data (by value) afterwards == before.
+
+The part B workload contains what the state relation needs to mean anything:
+callbacks that edit their argument in place (parsers, checks, custom dtype
+check / coerce: a copy of the caller's data that shares memory with it is
+written through), cells no coercion can convert (the only way to reach
+coerce_value), MultiIndex schemas with coerce on the MultiIndex / on every
+level / on some levels only, and a dataframe-wide dtype (components are
+validated with dtype / coerce temporarily overridden).
 """
 from __future__ import annotations
 
@@ -25,7 +35,7 @@ from ..evidence import Run, canon_hash
 
 PID = "C06"
 SHARDS = {"quick": 8, "thorough": 16}
-SHARD_TIMEOUT = {"quick": 600, "thorough": 1700}
+SHARD_TIMEOUT = {"quick": 600, "thorough": 2700}
 N_A = {"quick": 7000, "thorough": 200000}
 N_B = {"quick": 640, "thorough": 16000}
 MAX_ALL = 64
@@ -47,12 +57,29 @@ def new_run():
         "under value checks, dtype=None+coerce, add_missing_columns, "
         "non-dataframe arguments, validation depth); part B case = (schema "
         "dense in user callbacks, data, k): the k-th user-callback invocation "
-        "raises. distinct = canonical hash of the descriptor (+k); "
+        "raises; callbacks = check fn (vectorised / element-wise / groupby / "
+        "frame / row-wise), groupby fn, column / element-wise / frame parser, "
+        "custom DataType.check / coerce / coerce_value; a share of them edits "
+        "its argument in place (s[s < 0] = 0 style) and notes each real edit; "
+        "data: conforming, coercible text, or cells no coercion converts; "
+        "index: none / Index / MultiIndex of 2-3 levels with coerce on the "
+        "MultiIndex, on every level, on some levels or nowhere; optional "
+        "dataframe-wide dtype; 9 exception classes are injected. distinct = canonical hash of the descriptor (+k); "
         "non-trivial = A: the call did not simply accept a conforming frame "
         "(an error path or a hostile transformation was exercised); B: the "
         "fault was actually fired inside validate",
-        ["injected exceptions derive from Exception (+ValueError/TypeError/"
-         "KeyError/AttributeError mix-ins)",
+        ["injected exceptions derive from Exception (plain, or with a "
+         "ValueError / TypeError / KeyError / AttributeError / RuntimeError / "
+         "ZeroDivisionError / IndexError / NotImplementedError mix-in)",
+         "caller's data is compared by value (pvm.snap) only for "
+         "inplace=False; in-place editing callbacks only write values of the "
+         "container's own dtype, so no edit can fail by itself",
+         "a fault in a custom coerce_value must come back as SchemaError(s) "
+         "(docs/source/dtypes.md: coerce_value is how pandera finds the values "
+         "to report as coercion errors); a fault in a custom DataType.coerce / "
+         "check / parser / groupby fn may propagate as the injected object "
+         "(pandas wraps coerce, polars does not: counted per backend under "
+         "fault_outcome:<backend>:..., not judged)",
          "callback invocation order is deterministic for a rebuilt case "
          "(verified: the kind of the k-th invocation is the same in the "
          "counting run and in the fault run)",
@@ -217,6 +244,10 @@ K_MI_SCHEMA = "multiindex-schema-coerce-on-plain-index"
 K_DROP_SAMPLE = "population-shrunk-by-validation-before-sample"
 K_UNIQUE_COLNAMES = "unique-column-names-on-multiindex-columns"
 K_PL_NODTYPE_DEFAULT = "polars-default-on-column-without-dtype"
+K_COERCE_VALUE = "coerce-value-exception-escapes-coercion-failure-cases"
+K_INDEX_COERCE = "index-component-coerce-override-written-into-schema"
+K_COMPONENT_OVERRIDE = "column-component-dtype-or-coerce-override-written-into-schema"
+K_SHARED_BLOCKS = "pandas-object-validated-on-copy-sharing-memory-with-callers-data"
 
 
 def _fields(d):
@@ -426,13 +457,8 @@ def classify_leak(d, o):
     if (pandas and name == "ValueError" and sp.get("unique") and dup_index(d)
             and last == "backends/pandas/error_formatters.py:reshape_failure_cases"):
         return K_JOINT_DUPIDX
-    if (pandas and mi_schema_plain_index(d) and any_coerce(d)
-            and name in ("BackendNotFoundError", "ValueError")
-            and any(f.endswith(":coerce_dtype") for f in fr)):
-        return K_MI_SCHEMA
-    if (pandas and name == "TypeError" and sp.get("unique_column_names")
-            and last == "backends/pandas/container.py:check_column_names_are_unique"):
-        return K_UNIQUE_COLNAMES
+    # partial keys first: their ValueError comes from the container helpers,
+    # the MultiIndex-schema one from components.py (a case can have both tags)
     if pandas and partial_keys(d) and last.startswith("backends/pandas/"):
         pk = {repr(k) for k in partial_keys(d)}
         if name == "KeyError" and e.args:
@@ -446,6 +472,13 @@ def classify_leak(d, o):
                              "backends/pandas/container.py:set_defaults")):
             # the partial key selects several (repeated) columns at once
             return K_MI_COLS
+    if (pandas and mi_schema_plain_index(d) and any_coerce(d)
+            and name in ("BackendNotFoundError", "ValueError")
+            and any(f.endswith(":coerce_dtype") for f in fr)):
+        return K_MI_SCHEMA
+    if (pandas and name == "TypeError" and sp.get("unique_column_names")
+            and last == "backends/pandas/container.py:check_column_names_are_unique"):
+        return K_UNIQUE_COLNAMES
     return None
 
 
@@ -489,11 +522,32 @@ def classify_state(d, o):
     if o.fp_diff and all(p.endswith(".name") for p, _, _ in o.fp_diff) \
             and has_regex(d) and d["backend"] == "pandas" and o.kind != "ok":
         return K_D2
+    if o.fp_diff and d["backend"] == "pandas":
+        paths = [p for p, _, _ in o.fp_diff]
+        if all(p.startswith("$.index") and p.endswith("coerce")
+               for p in paths) and d["spec"].get("index"):
+            # the temporary coerce=False of run_schema_component_checks (or
+            # its restoration through the MultiIndex.coerce property, which
+            # reads '_coerce or any(level.coerce)' and writes '_coerce')
+            return K_INDEX_COERCE
+        if all(p.startswith("$.columns") and ("coerce" in p or "dtype" in p)
+               for p in paths) and (
+                d["spec"].get("dtype") is not None or d["spec"].get("coerce")):
+            return K_COMPONENT_OVERRIDE
+    return None
+
+
+def classify_input(d, o, mutations):
+    """Caller's data changed although inplace=False: attributed to shared
+    memory only when a callback of the case did edit its argument in place
+    (noted by the callback itself)."""
+    if d["backend"] == "pandas" and mutations and not o.kw.get("inplace"):
+        return K_SHARED_BLOCKS
     return None
 
 
 # ------------------------------------------------------------------ oracles
-def channel(run, d, o, part, injected=None, inj_kind=None):
+def channel(run, d, o, part, injected=None, inj_kind=None, extra=None):
     """B-CHANNEL.  Returns True when the outcome is inside the channel."""
     import pandera.errors as pe
     run.count(f"channel_evaluated:{part}:{d['backend']}")
@@ -512,7 +566,9 @@ def channel(run, d, o, part, injected=None, inj_kind=None):
         if isinstance(e, pe.BackendNotFoundError):
             run.count("undecided:non-dataframe-arg-BackendNotFoundError")
             return True
-    if injected is not None and e is injected and inj_kind not in CF.CHECK_KINDS:
+    if (injected is not None and e is injected
+            and inj_kind not in CF.CHECK_KINDS
+            and inj_kind not in CF.REPORTED_KINDS):
         run.count(f"outcome:injected-object-propagated:{inj_kind}")
         return True
     if not isinstance(e, Exception):
@@ -527,13 +583,22 @@ def channel(run, d, o, part, injected=None, inj_kind=None):
     w = witness(d, o) | {"exception": repr(e)[:300], "site": site(e),
                          "pandera_frames": frames_of(e)[-6:],
                          "part": part, "non_dataframe_argument": not o.is_frame}
+    w |= extra or {}     # k, N, callback kind, fault base: what replay needs
     if injected is not None:
         w["injected_at"] = inj_kind
         w["is_injected_object"] = e is injected
-    kind = ("raising-check-propagated-instead-of-reported"
-            if injected is not None and e is injected else
-            f"internal-exception-leaked:{site(e)}")
-    run.violation(kind, w, classify_leak(d, o))
+    mech = classify_leak(d, o)
+    if injected is not None and e is injected:
+        kind = "raising-check-propagated-instead-of-reported"
+        if inj_kind in CF.REPORTED_KINDS:
+            # docs/source/dtypes.md: coerce_value tells pandera which values
+            # cannot be coerced; its exception is a failure case to report
+            kind = f"raising-{inj_kind}-propagated-instead-of-reported"
+            if frames_of(e)[-1:] == ["engines/utils.py:_coercible"]:
+                mech = K_COERCE_VALUE
+    else:
+        kind = f"internal-exception-leaked:{site(e)}"
+    run.violation(kind, w, mech)
     return False
 
 
@@ -542,7 +607,7 @@ def witness(d, o):
             "validate_kwargs": o.kw}
 
 
-def state(run, d, o, part, extra=None):
+def state(run, d, o, part, extra=None, mutations=0):
     """Schema / config / caller's data afterwards == before."""
     run.count(f"state_evaluated:{part}")
     ok = True
@@ -558,7 +623,9 @@ def state(run, d, o, part, extra=None):
     if o.input_diff:
         ok = False
         run.violation("callers-data-changed-by-failed-call",
-                      witness(d, o) | {"diff": o.input_diff} | (extra or {}), None)
+                      witness(d, o) | {"diff": o.input_diff} | (extra or {})
+                      | {"in_place_edits_by_callbacks_during_the_call": mutations},
+                      classify_input(d, o, mutations))
     if ok:
         run.count(f"state_unchanged:{part}")
     return ok
@@ -622,6 +689,11 @@ def part_b(run, ctx, i):
     n = f0.count
     run.count("B:cases")
     run.count(f"B:backend:{backend}")
+    for t in d["tags"]:
+        if t != "callbacks":
+            run.count("B:tag:" + t)
+    if f0.mutations:
+        run.count("B:cases_with_in_place_editing_callback")
     run.count(f"B:counting_run_outcome:{o0.kind}")
     channel(run, d, o0, "B0")
     if o0.fp_diff:
@@ -655,8 +727,11 @@ def part_b(run, ctx, i):
         run.count(f"fault_points:{backend}")
         run.count(f"fault_base:{base}")
         run.count(f"fault_outcome:{kind}:{o.kind}")
+        if kind in CF.OTHER_KINDS:
+            run.count(f"fault_outcome:{backend}:{kind}:{o.kind}")
         extra = {"k": k, "N": n, "callback": kind, "fault_base": base}
-        in_channel = channel(run, d, o, "B", injected=exc, inj_kind=kind)
+        in_channel = channel(run, d, o, "B", injected=exc, inj_kind=kind,
+                             extra=extra)
         if in_channel and kind in CF.CHECK_KINDS:
             run.count("check_fault_evaluated")
             if o.kind == "SchemaErrors":
@@ -679,11 +754,32 @@ def part_b(run, ctx, i):
                                   witness(d, o) | extra, None)
             else:
                 run.count("undecided:check-fault-usage-error")
+        elif in_channel and kind in CF.REPORTED_KINDS:
+            # the fault hit the value-by-value search for coercion failure
+            # cases: in the channel it can only be a reported coercion error
+            run.count(f"reported_fault_evaluated:{kind}")
+            if "DATATYPE_COERCION" in o.reasons:
+                run.count(f"reported_fault:{kind}:DATATYPE_COERCION")
+            elif o.kind == "ok":
+                run.count("undecided:coerce-value-fault-and-validate-returned")
+            else:
+                run.count("undecided:coerce-value-fault-other-reason-first")
         elif in_channel:
             run.count("other_fault_evaluated")
             if o.kind == "ok":
                 run.count("undecided:non-check-fault-swallowed")
-        state(run, d, o, "B", extra)
+        # state: which of the temporarily modified / shared things were in play
+        if f.mutations and o.is_frame and not o.kw.get("inplace"):
+            run.count("state_evaluated:B:after-in-place-edit-by-callback")
+            for mk in f.mutated_by:
+                run.count(f"state_evaluated:B:after-in-place-edit:{mk}")
+            run.count("state_evaluated:B:after-in-place-edit:"
+                      + d["spec"]["kind"])
+        for t in d["tags"]:
+            if t.startswith(("multiindex", "frame-dtype", "uncoercible",
+                             "standalone-column")):
+                run.count("state_evaluated:B:" + t)
+        state(run, d, o, "B", extra, mutations=f.mutations)
 
 
 # ------------------------------------------------------------------ driver
@@ -708,9 +804,9 @@ QUICK_FLOORS = {
     "B:cases_fully_enumerated": 140,
     "fault_points:pandas": 580, "fault_points:polars": 250,
     "fault_points:check_vec": 140, "fault_points:check_elem": 240,
-    "fault_points:check_groupby": 30, "fault_points:check_frame": 60,
+    "fault_points:check_groupby": 23, "fault_points:check_frame": 60,
     "fault_points:check_frame_row": 40, "fault_points:groupby_fn": 20,
-    "fault_points:parser": 40, "fault_points:parser_elem": 40,
+    "fault_points:parser": 40, "fault_points:parser_elem": 27,
     "fault_points:parser_frame": 16, "fault_points:dtype_check": 110,
     "fault_points:dtype_coerce": 55,
     "A:tag:drop_invalid_rows": 600, "A:tag:add_missing_columns": 380,
@@ -723,6 +819,31 @@ QUICK_FLOORS = {
     "A:tag:frame-level-check": 300, "A:tag:joint-unique": 200,
     "A:tag:subsample": 250, "A:tag:depth": 190, "A:tag:arg": 65,
     "A:tag:duplicate-index-labels": 45, "A:tag:inplace": 100,
+    # fault inside the value-by-value search for coercion failure cases
+    "fault_points:dtype_coerce_value": 19,
+    "reported_fault_evaluated:dtype_coerce_value": 19,
+    "reported_fault:dtype_coerce_value:DATATYPE_COERCION": 19,
+    "state_evaluated:B:uncoercible-cells": 90,
+    # caller's data compared by value after callbacks that edit in place
+    "B:cases_with_in_place_editing_callback": 29,
+    "state_evaluated:B:after-in-place-edit-by-callback": 180,
+    "state_evaluated:B:after-in-place-edit:frame": 170,
+    "state_evaluated:B:after-in-place-edit:series": 9,
+    "state_evaluated:B:after-in-place-edit:parser": 36,
+    "state_evaluated:B:after-in-place-edit:parser_frame": 31,
+    "state_evaluated:B:after-in-place-edit:check_vec": 10,
+    "state_evaluated:B:after-in-place-edit:check_frame": 4,
+    "state_evaluated:B:after-in-place-edit:dtype_coerce": 38,
+    "state_evaluated:B:after-in-place-edit:dtype_check": 23,
+    # schema components whose attributes are overridden during validate
+    "state_evaluated:B:multiindex": 150,
+    "state_evaluated:B:multiindex:coerce-on-some-levels": 43,
+    "state_evaluated:B:multiindex:coerce=True": 20,
+    "state_evaluated:B:multiindex:coerce-on-every-level": 13,
+    "state_evaluated:B:multiindex:no-coerce": 15,
+    "state_evaluated:B:frame-dtype": 50,
+    # Column(...).validate(dataframe): a component used as a schema
+    "state_evaluated:B:standalone-column": 22,
 }
 
 
@@ -748,7 +869,7 @@ def replay(path):
         o = execute(d, f_)
         exc, kind = (f_.fired[1], f_.fired[0]) if f_.fired else (None, None)
         if channel(r, d, o, "B", injected=exc, inj_kind=kind):
-            state(r, d, o, "B")
+            state(r, d, o, "B", mutations=f_.mutations)
     else:
         o = execute(d, CF.Faults())
         channel(r, d, o, "A")
